@@ -720,6 +720,19 @@ func (e *Engine) evalCall(c *evalCtx, n *ECall) Val {
 			seq = App("tokseq_cons", seqS, seq, BVConst(tkBlk, 8), BVConst(0, 8), k, BVConst(0, 64), BVConst(0, 64))
 			v := Ite(Eq(ty, BVConst(1, 64)), ZExt(App("crc16x25_toks", BV(16), seq), 64), ZExt(App("crc32c_toks", BV(32), seq), 64))
 			return Val{types.Typ[types.Uint64], []*Term{v}}
+		case "bpos", "bend":
+			s := e.resolveAlias(c.st, streamRef(e.eval(c, n.Args[0])))
+			if id.Name == "bpos" {
+				return Val{types.Typ[types.Uint64], []*Term{bsPos(c.st, s)}}
+			}
+			return Val{types.Typ[types.Uint64], []*Term{bsEnd(c.st, s)}}
+		case "bbyte":
+			s := e.resolveAlias(c.st, streamRef(e.eval(c, n.Args[0])))
+			i := toWidth(e.eval(c, n.Args[1]).t(), 64, false)
+			return Val{types.Typ[types.Uint8], []*Term{c.st.loadLeaf("bs|data", []*Term{s, i}, BV(8))}}
+		case "buflen":
+			s := e.resolveAlias(c.st, streamRef(e.eval(c, n.Args[0])))
+			return Val{types.Typ[types.Uint64], []*Term{bufLen(c.st, s)}}
 		case "ioOK":
 			// hypothesis of round-trip behaviours: the underlying reader/writer does not fail
 			c.st.ghost["$noioerr"] = boolVal(True)
